@@ -6,7 +6,7 @@ Lines ==
     <<"OWN","SP","FOR">>, <<"OWN","TAB","FOR","SP","FOR2">>, <<"OWN","SP","FOR","SP","HASH","TXT">>,
     <<"FOR">>, <<"FSN">>, <<"PFX">>, <<"SFX">>, <<"HASH","TXT">>, <<"HASH","SP","MEN">>,
     <<"HASH","SP","MEN","SP","MEN">>, <<"HASH","OWN">>, <<>>, <<"OWN","CR">>, <<"FOR","SP","OWN">>, <<"SP","OWN">>,
-    <<"HASH","OWN","SP","MEN">>, <<"SP","FOR">> }
+    <<"HASH","OWN","SP","MEN">>, <<"SP","FOR">>, <<"MEN">> }       \* <<"MEN">>: a bare "libsnoopy.so" entry, i.e. an active mention without any directory
 LinesSmall ==
   { <<"OWN">>, <<"OWN","SP","FOR">>, <<"FOR">>, <<"FSN">>, <<"HASH","SP","MEN","SP","MEN">>, <<>> }
 
